@@ -55,8 +55,8 @@ def main():
             if "patch.diff" in fn:
                 dirs.append(dp)
     dirs.sort()
-    with Pool(min(j, max(1, len(dirs)))) as pool:
-        summary = pool.map(one, dirs)
+    with Pool(min(j, max(1, len(dirs))), maxtasksperchild=2) as pool:
+        summary = pool.map(one, dirs, chunksize=1)
     caught = own_caught = 0
     for d, own, fired, errs in summary:
         if fired == "PATCH-FAILED":
